@@ -291,6 +291,26 @@ func (c *Ctx) ruleReflect(rule string, fns map[*ssa.Function]bool) {
 				if (m == "Set" || m == "SetMapIndex") && len(call.Call.Args) >= 2 {
 					c.reflectSetArgs(rule, dt, fn, b, call, m, cnt)
 				}
+				if m == "Set" && len(call.Call.Args) == 2 && isStructFieldValue(call.Call.Args[0], map[ssa.Value]bool{}) {
+					// (h) Set on a struct field obtained by reflection panics for an unexported field ("using value
+					// obtained using unexported field"): properties are matched to fields by name, exported or not
+					cnt["setfield"]++
+					k := key(rule, c.M.Key(fn), sprintf("reflect.Value.Set #%d on a struct field is possible (CanSet) or recovered", cnt["setfield"]))
+					path := c.reflPath(call.Call.Args[0], 0)
+					canSet := func(cond core.Cond) bool {
+						cc, ok := cond.V.(*ssa.Call)
+						return ok && cond.True && reflectValueMethod(cc) == "CanSet" && c.reflPath(cc.Call.Args[0], 0) == path
+					}
+					switch {
+					case isRecoverScope(fn):
+						c.R.Ok(rule, k, c.M.InstrPos(call), "assignment to a struct field through reflection", "the function recovers: the panic becomes the recovered error")
+					case core.MustHold(fn, canSet)[b]:
+						c.R.Ok(rule, k, c.M.InstrPos(call), "assignment to a struct field through reflection", "on every path CanSet() of the same Value was found true")
+					default:
+						c.R.Bad(rule, k, c.M.InstrPos(call), "reflect.Value.Set on a struct field that may be unexported, outside any recover scope",
+							"a property mapped to an unexported struct field (fields are looked up by name or json tag, exported or not): Unserialize of an input that supplies the property panics ('reflect.Value.Set using value obtained using unexported field') instead of returning an error")
+					}
+				}
 				if m == "MapIndex" && len(call.Call.Args) == 2 {
 					cnt["mapindex"]++
 					c.reflectMapIndex(rule, fn, call, cnt["mapindex"])
@@ -519,6 +539,64 @@ func (c *Ctx) elemNonNil(fn *ssa.Function, call *ssa.Call, depth int) string {
 		return ""
 	}
 	return sprintf("the receiver is parameter %s; at each of the %d call sites the argument is known not to be a nil pointer (IsNil() false%s on every path, through at most %d callers)", param.Name(), sites, map[bool]string{true: " or Kind() != Pointer", false: ""}[underPointer], 3)
+}
+
+// isStructFieldValue: v is the result of Field / FieldByName / FieldByIndex / FieldByIndexErr (possibly through a phi, a
+// local copy, or the free variable of a closure bound to such a value).
+func isStructFieldValue(v ssa.Value, seen map[ssa.Value]bool) bool {
+	if seen[v] {
+		return false
+	}
+	seen[v] = true
+	switch x := v.(type) {
+	case *ssa.Call:
+		switch reflectValueMethod(x) {
+		case "Field", "FieldByName", "FieldByIndex", "FieldByIndexErr", "FieldByNameFunc":
+			return true
+		}
+	case *ssa.Extract:
+		return isStructFieldValue(x.Tuple, seen)
+	case *ssa.Phi:
+		for _, e := range x.Edges {
+			if isStructFieldValue(e, seen) {
+				return true
+			}
+		}
+	case *ssa.UnOp:
+		// load of a local / captured variable: look at what is stored into it
+		if al, ok := x.X.(*ssa.Alloc); ok {
+			for _, r := range *al.Referrers() {
+				if st, ok := r.(*ssa.Store); ok && st.Addr == ssa.Value(al) && isStructFieldValue(st.Val, seen) {
+					return true
+				}
+			}
+		}
+		if fv, ok := x.X.(*ssa.FreeVar); ok {
+			fn := fv.Parent()
+			idx := -1
+			for i, f := range fn.FreeVars {
+				if f == fv {
+					idx = i
+				}
+			}
+			if parent := fn.Parent(); parent != nil && idx >= 0 {
+				for _, b := range parent.Blocks {
+					for _, in := range b.Instrs {
+						if mc, ok := in.(*ssa.MakeClosure); ok && mc.Fn == ssa.Value(fn) && idx < len(mc.Bindings) {
+							if al, ok := mc.Bindings[idx].(*ssa.Alloc); ok {
+								for _, r := range *al.Referrers() {
+									if st, ok := r.(*ssa.Store); ok && st.Addr == ssa.Value(al) && isStructFieldValue(st.Val, seen) {
+										return true
+									}
+								}
+							}
+						}
+					}
+				}
+			}
+		}
+	}
+	return false
 }
 
 // madeByNew: v is the result of reflect.New / Value.Addr, or a phi of such.
